@@ -13,7 +13,7 @@ DICT = ["1*", "0*", "-1*", "3*", "99999999*", "*5", "*", "'", "/", "//", "--", "
         "2147483648", "'P1'", "'*'", "'P*'", "OPEN", "SHUT", "1", "0", "-1", "1.0", "ABCDEFGHIJ", "'A B'", "INCLUDE", "ENDINC", "END",
         "TITLE", "/ /", "\t", "3*1.5", "2*'X'", "1*1*", "**", "1.5D3", "nan", "inf", "''", "ACTIONX", "ENDACTIO", "UDQ", "DEFINE", "WOPR",
         "+", "(", ")", "^", "DATES", "TSTEP", "WELSPECS", "COMPDAT", "GRID", "SCHEDULE", "DIMENS", "EQUALS", "COPY", "BOX", "ENDBOX",
-        "TABDIMS", "WELLDIMS", "PVTO", "SWOF", "1000000", "0.0", "-0.0", "1e-300", "'?'", "'FIELD'", "FIELD", "METRIC", "LAB"]
+        "PATHS", "'INCDIR' '$INCDIR/x' /", "'$INCDIR/inc1.inc'", "'A' '$B' /", "'B' '$A' /", "'$A/f.inc'", "$", "TABDIMS", "WELLDIMS", "PVTO", "SWOF", "1000000", "0.0", "-0.0", "1e-300", "'?'", "'FIELD'", "FIELD", "METRIC", "LAB"]
 
 
 def mutate(text, ints):
@@ -26,6 +26,11 @@ def mutate(text, ints):
         k += 1
         return v % n if n else 0
 
+    # include handling: PATHS aliases (nested / self-referential / unknown) are part of the INCLUDE mechanism
+    for i, ln in enumerate(lines):
+        if ln.strip().startswith("'INCDIR'") and nxt(3) == 0:
+            lines[i] = [" 'INCDIR' '$INCDIR/sub' /", " 'INCDIR' '$OTHER' /\n 'OTHER' '$INCDIR' /", " 'INCDIR' '$NOPE/sub' /",
+                        " 'INCDIR' 'sub' /\n 'INCDIR' '$INCDIR' /", " 'INCDIR' '' /"][nxt(5)]
     for _ in range(1 + nxt(4)):
         if not lines:
             break
@@ -93,6 +98,7 @@ class C20Token(Check):
     MIN_EVALS = {"quick": 1, "thorough": 1}
     TIME_CAP = {"quick": 45, "thorough": 420}
     MAX_REJECT = 1.0
+    _hang_seen = False
 
     def strategy(self, tier):
         return case_strategy()
@@ -119,6 +125,8 @@ class C20Token(Check):
         from checks.c20 import signature
         from vlib.probe import ProbeCrash
         files = self.texts(case)
+        # a request that does not come back within this bound is a hang (once one was seen, shrinking uses a shorter bound)
+        ctx.P.timeout = 100.0 if not C20Token._hang_seen else 20.0
         try:
             if len(files) == 1:
                 r = ctx.P.call("parse_build", text=files["ROOT.DATA"], ctx=case["ctx"])
@@ -127,7 +135,9 @@ class C20Token(Check):
         except ProbeCrash as e:
             from checks.c20 import finding_key
             sig = finding_key("token", signature(e.stderr or ""))
+            if sig.startswith("hang"):
+                C20Token._hang_seen = True
             return {"rule": "crash (sanitizer report / signal / exit) while parsing or building state from generated-and-mutated deck text",
-                    "detail": {"signature": sig, "stderr": (e.stderr or "")[-2500:], "files": files, "ctx": case["ctx"]}, "key": sig}
+                    "detail": {"signature": sig, "stderr": (e.stderr or "")[:3500], "files": files, "ctx": case["ctx"]}, "key": sig}
         ctx.label("token:stage:" + r["stage"])
         return None
